@@ -15,8 +15,9 @@ type c13Engine struct{}
 
 func (c13Engine) Meta() core.Meta {
 	return core.Meta{
-		Property: "C13",
-		Level:    "fault_enumeration",
+		Property:   "C13",
+		Level:      "fault_enumeration",
+		NonVacuous: []string{"intact_opened", "derived_crash_image_confirmed_by_real_kill", "recreate_over_corrupt_entry_opens"},
 		Rule: "Each simulated run draws a workload from its seed (digest size md5/sha1/sha256, 1-3 keys that may share a root or data digest, " +
 			"0-2 earlier writes, one target write with a seeded body class, Write chunking and flate level) and runs the real cmd/cache " +
 			"create/write/close code over the simulated disk. Inside the run the fault position is swept: a kill at every write of the protocol " +
